@@ -108,8 +108,8 @@ def coq_make(targets, timeout=1500):
     for attempt in range(3):
         with Lock("coq"):
             coq_project()
-            rc, out, dt = sh(["make", "-f", "Makefile.coq", f"-j{NPROC}", "--no-print-directory"] + targets,
-                             cwd=COQ, timeout=timeout)
+            rc, out, dt = sh(["timeout", "-k", "10", str(int(timeout)), "make", "-f", "Makefile.coq", f"-j{NPROC}",
+                              "--no-print-directory"] + targets, cwd=COQ, timeout=timeout + 30)
         if rc != 0 and "No rule to make target" in out and attempt < 2:
             # the file list changed under us (a generated file was rewritten/removed): regenerate and retry
             try:
